@@ -184,6 +184,10 @@ def run(rep, tier):
     memo_rule(prog, rep)
     r10(prog, rep, f)
     from ..report import Premise
+    # R5 states g_23 = g_33 * d(zShift)/dy; zShift is built by the placement/chain code of C06
+    rep.rule("R11", "premise: zShift is the chained field-line integral at every location (placement parities, hand-over between regions: C06.R2/R3)")
+    from . import c06
+    c06.r2_r3(prog, Premise(rep, "R11", "C06"), common.zshift_function(prog))
     from . import c18
     c18.mla_rules(prog, Premise(rep, "R8", "C18"), "R3")
     rep.undecided("covariant components vs scalar products of actual displacements (numerical)")
